@@ -51,6 +51,8 @@ mod seglog;
 mod store;
 mod sys;
 mod task;
+#[cfg(nomt_verif)]
+mod verif;
 
 mod io;
 
